@@ -18,7 +18,7 @@ def instances(tier):
             ("a8r8g8b8", 12, (0, 0, 5, 2), (1, 0, 4, 1)), ("r5g6b5", 3, (2, 1, 9, 9), (0, 0, 3, 2))]
     if tier == "thorough":
         conf += [(f, op, g, c) for f in ("a1", "a4", "a8", "r8g8b8", "r5g6b5", "a8r8g8b8", "a1r5g5b5", "r3g3b2")
-                 for op in (1, 3, 12, 9) for g, c in (((1, 0, 3, 1), None), ((-2, -1, 4, 2), None), ((0, 0, 5, 2), (1, 1, 3, 2)), ((4, 1, 3, 3), (0, 0, 5, 2)))]
+                 for op in (1, 3) for g, c in (((1, 0, 3, 1), None), ((-2, -1, 4, 2), None), ((0, 0, 5, 2), (1, 1, 3, 2)), ((4, 1, 3, 3), (0, 0, 5, 2)))]
     seen = set()
     for fmt, op, g, c in conf:
         d = {"FMT": "PIXMAN_" + fmt, "OP": op, "DX": g[0], "DY": g[1], "RW": g[2], "RH": g[3], "VP_REL": None}
